@@ -55,7 +55,7 @@ ASYNCIO_PROFILE = gen.profile(
     exc_cls=["exc"],
     try_kinds=["exc", "none"],
     w_stmt=dict(sync=0, raise_=0.4, try_=1.5, with_=0, ret=0.0, orphan=0, read=0, probe=0.0),
-    w_leaf=dict(call=8, item=0, const=2.5, none=1.2, err=0, lazy=0, again=0, junk=0, dbg=0),
+    w_leaf=dict(call=8, item=0, const=2.5, none=1.2, err=0, lazy=0, again=0, junk=0, dbg=0, constexc=0),
     styles=["asynq", "method", "proxy", "pure"],
     plain_styles=["plain"],
     max_instances=40,
